@@ -71,7 +71,7 @@ func TestCheck(t *testing.T) {
 		}
 	}()
 	ctx := context.Background()
-	n := int64(cfg.Pick(150, 4000))
+	n := int64(cfg.Pick(600, 4000))
 	rep.Require("leak_checks_settled", 50)
 	rep.Cases(n, func(idx int64, rng *mon.Rand) {
 		if idx%8 == 7 {
